@@ -14,7 +14,7 @@ verifkit.DB, paymentsdb.SQLStore on SQLite):
 
 Attempts are ROUTES (b16): the model keeps the stored image of every attempt's route, decides the admission
 of every later shard from it (verifyAttempt on the final hop of the stored routes) and demands
-img = registered route (RoundTrip, AdmitByRegistered; MC over a universe of 61 route shapes); the executor
+img = registered route (RoundTrip, AdmitByRegistered; MC over a universe of 64 route shapes); the executor
 builds the real route.Route of every shape and records the route of every attempt as read back from BOTH
 stores after every call (ConformRoute, ConformRetRoute, RecordedRoundTrip in PaymentStoreTrace).
 
@@ -251,12 +251,12 @@ def run(ck):
         for na in ([3, 4] if thorough else [3]):
             ck.model_check(SPEC, "PaymentStoreMC", "PaymentStoreMCFull.cfg",
                            "PaymentStore strict, complete state space, 2 payments x %d attempt ids, value 3, "
-                           "15 routes (one per admission class)" % na,
+                           "12 routes (one per admission class)" % na,
                            constants=consts(NA=na), name="mc_full_na%d" % na, timeout=1700, workers=MC_WORKERS)
-        # the whole universe of route shapes (61 routes) meeting itself as "stored in flight" x "offered" in one payment
+        # the whole universe of route shapes (64 routes) meeting itself as "stored in flight" x "offered" in one payment
         for na in ([3, 4] if thorough else [3]):
             ck.model_check(SPEC, "PaymentStoreMC", "PaymentStoreMCRoutes.cfg",
-                           "PaymentStore strict, complete state space, 1 payment x %d attempt ids, the universe of 61 route "
+                           "PaymentStore strict, complete state space, 1 payment x %d attempt ids, the universe of 64 route "
                            "shapes (RoundTrip, AdmitByRegistered)" % na,
                            constants=consts(NA=na), name="mc_routes_na%d" % na, timeout=900, workers=MC_WORKERS)
     ck.cov["exhaustive"] = True
@@ -275,11 +275,12 @@ def run(ck):
         ck.notes.append("Lossy=%s violates %s (TLC, depth %d)" % (lossy, expect, r.depth))
     # what the two named deviations break (expected violations: evidence that the invariants bite)
     for const, expect in (("F2Quirk", "OwnHashOnly"), ("KVDupQuirk", "AttemptStable")):
-        # (BFS: the shortest violation is Init, Register, Register resp. Init, Init, Register, Settle)
+        # (BFS with ONE worker: the shortest violation is Init, Register, Register resp. Init, Init, Register, Settle;
+        #  with several workers a deeper violation of another invariant can be reported first under load)
         c = consts(MaxOps=5)
         c[const] = "TRUE"
         r = ck.model_check(SPEC, "PaymentStoreMC", "PaymentStoreMC.cfg", "PaymentStore with %s (must violate %s)" % (const, expect),
-                           must_hold=False, constants=c, name="mc_" + const, timeout=600, workers=4)
+                           must_hold=False, constants=c, name="mc_" + const, timeout=600, workers=1)
         if not r.violation or expect not in r.violation:
             raise Inconclusive("the specification with %s=TRUE does not violate %s (got %s): the property does not bind"
                                % (const, expect, r.violation))
